@@ -2,6 +2,7 @@
 base strings, known-finding signatures (predicates over a failing case)."""
 
 KIND_NAMES = {
+    601: 'C06/accept: metainfo.NewInfo vs Meta.accept',
     201: 'C02/new_pieces: metainfo.NewInfo+piece.NewPieces vs Geometry.new_pieces',
     202: 'C02/calc_blocks: piece.calculateBlocks vs Geometry.calc_blocks',
     203: 'C02/section_io: filesection.Piece.Write+ReadAt vs SectionIO.write_secs/read_at',
@@ -20,6 +21,11 @@ TRUSTED_COMMON = [
 ]
 
 PROPS = {
+    'C06': {
+        'kinds': {601: {'quick': 4000, 'thorough': 100000}},
+        'trusted': ['zeebo/bencode decodes the generated dictionaries into the struct fields the model starts from'],
+        'assumptions': ['file lengths and the single length are int64 values; len(pieces)/20 < 2^31'],
+    },
     'C02': {
         'kinds': {201: {'quick': 3000, 'thorough': 60000}, 202: {'quick': 3000, 'thorough': 60000},
                   203: {'quick': 1500, 'thorough': 20000}, 204: {'quick': 2000, 'thorough': 40000}},
